@@ -513,3 +513,92 @@ Proof.
   - exfalso. apply zassoc_none in E0. apply E0. destruct Hs as [_ Hl]. rewrite <- Hl.
     eapply zassoc_In_fst. exact Hz.
 Qed.
+
+(* ---------------------------------------------------------------------------------------------------------------- *)
+(* arithmetic terms                                                                                                 *)
+(* ---------------------------------------------------------------------------------------------------------------- *)
+Lemma frac_den_pos v n d : frac v = Some (n, d) -> 0 < d.
+Proof. destruct v; simpl; intros H; inversion H; lia. Qed.
+
+(* denominators stay positive, so comparing fractions by cross-multiplication is comparing their values *)
+Lemma tval_den_pos cs r t : forall n d, tval cs r t = Some (n, d) -> 0 < d.
+Proof.
+  induction t as [c|k|a IHa b IHb|a IHa b IHb|a IHa b IHb]; simpl; intros n d H;
+    try (eapply frac_den_pos; exact H);
+    destruct (tval cs r a) as [[n1 d1]|]; try discriminate;
+    destruct (tval cs r b) as [[n2 d2]|]; try discriminate;
+    inversion H; subst; specialize (IHa _ _ eq_refl); specialize (IHb _ _ eq_refl); nia.
+Qed.
+
+Lemma cmp_z_scale o k x y : 0 < k -> cmp_z o (k * x) (k * y) = cmp_z o x y.
+Proof.
+  intros Hk. destruct o; simpl;
+    repeat match goal with
+           | |- context [?a =? ?b] => destruct (Z.eqb_spec a b)
+           | |- context [?a <? ?b] => destruct (Z.ltb_spec a b)
+           | |- context [?a <=? ?b] => destruct (Z.leb_spec a b)
+           end; simpl; try reflexivity; exfalso; nia.
+Qed.
+
+Ltac cmp_cases :=
+  repeat match goal with
+         | |- context [?a =? ?b] => destruct (Z.eqb_spec a b)
+         | |- context [?a <? ?b] => destruct (Z.ltb_spec a b)
+         | |- context [?a <=? ?b] => destruct (Z.leb_spec a b)
+         end; simpl; try reflexivity; exfalso; lia.
+
+(* a term comparison of a bare column with a constant is the plain comparison (on numeric cells; NaN likewise) *)
+Local Opaque Z.mul.
+Lemma cmpt_atom cs r c o k : (exists y, num k = Some y) ->
+  (forall z, cell_of cs r c <> Sv z) ->
+  eval cs r (QCmpT (TCol c) o (TConst k)) = eval cs r (QCmp c o k).
+Proof.
+  intros [y Hy] Hs. simpl. destruct (cell_of cs r c) as [|b|z|z|z] eqn:E; destruct k as [|b'|z'|z'|z']; simpl in *;
+    try discriminate; try (exfalso; now apply (Hs z)); try reflexivity;
+    try (destruct b); try (destruct b'); unfold eval_cmp_frac, eval_cmp; simpl;
+    try reflexivity; destruct o; unfold cmp_z; cmp_cases.
+Qed.
+Local Transparent Z.mul.
+
+(* ---------------------------------------------------------------------------------------------------------------- *)
+(* get_population                                                                                                   *)
+(* ---------------------------------------------------------------------------------------------------------------- *)
+Lemma population_untracked t : population t true = (colnames t, trows t).
+Proof. reflexivity. Qed.
+
+Lemma nodup_looked_up rows : NoDup (map fst rows) -> looked_up rows rows.
+Proof.
+  unfold looked_up. induction rows as [|[a r] rows IH]; simpl; intros H; [constructor|].
+  inversion H as [|x l Hn Hd]; subst. constructor.
+  - simpl. now rewrite Z.eqb_refl.
+  - specialize (IH Hd). rewrite Forall_forall in *. intros lr Hin. simpl.
+    destruct (a =? fst lr) eqn:E; [|now apply IH].
+    apply Z.eqb_eq in E. exfalso. apply Hn. rewrite E. now apply in_map.
+Qed.
+
+(* get_population(untracked=False): exactly the rows whose tracked cell is True, in table order; with unique labels
+   these are the simulants a full view with the query `tracked` returns for the whole index *)
+Theorem population_tracked t : In TRACKED (colnames t) ->
+  fst (population t false) = colnames t /\
+  snd (population t false) = filter (fun lr => eval (colnames t) (snd lr) (QCol TRACKED)) (trows t) /\
+  (NoDup (map fst (trows t)) ->
+   map fst (snd (population t false)) = filter (sat t (QCol TRACKED)) (map fst (trows t))).
+Proof.
+  intros Hin. apply zmem_In in Hin. unfold population. rewrite Hin. simpl. split; [reflexivity|]. split; [reflexivity|].
+  intros Hnd. rewrite (filter_rows (trows t) (fun r => eval (colnames t) r (QCol TRACKED))) by (now apply nodup_looked_up).
+  apply filter_ext. intros l. unfold sat. reflexivity.
+Qed.
+
+Theorem population_vs_full_view t c rows : In TRACKED (colnames t) -> NoDup (map fst (trows t)) ->
+  get t (mk_view [] (QCol TRACKED)) (map fst (trows t)) QTrue = Ok (c, rows) ->
+  map fst rows = map fst (snd (population t false)).
+Proof.
+  intros Hin Hnd H. destruct (population_tracked t Hin) as [_ [_ P]]. rewrite (P Hnd).
+  apply get_spec in H as [_ [Hr _]]. rewrite Hr. apply filter_ext. intros l. unfold keep.
+  rewrite mk_view_keep by (now left). unfold sat. simpl.
+  destruct (zassoc l (trows t)); simpl; [apply andb_true_r | reflexivity].
+Qed.
+
+(* a table without a tracked column (before the manager's initializer has run) is returned whole *)
+Lemma population_no_tracked_column t u : ~ In TRACKED (colnames t) -> population t u = (colnames t, trows t).
+Proof. intros H. apply zmem_false in H. unfold population. rewrite H. now rewrite orb_true_r. Qed.
